@@ -112,7 +112,7 @@ Qed.
 Theorem mask_blocks_refines (t : tb) (k : ckey) : wf_tb t -> t <> [] -> walk_dom k = true ->
   res_map flatten (M_mask_blocks t k on off) = S_mask_columns (flatten t) k on off.
 Proof.
-  intros Hwf Hne Hdom. unfold M_mask_blocks, S_mask_columns.
+  intros Hwf Hne Hdom. unfold M_mask_blocks, S_mask_columns, block_slices_for, Gen.Gen_c08.retain_key_order_mask_blocks.
   destruct (key_positions k (Z.of_nat (length (flatten t)))) as [ps|e] eqn:Ek.
   - destruct (block_slices_asc_runs t k ps Hwf Hdom Ek) as (ps' & Hinc & Hsame & Hrange & Ets).
     rewrite Ets.
